@@ -112,6 +112,9 @@ CacheProofs.vos CacheProofs.vok CacheProofs.required_vos: CacheProofs.v Base.vos
 CacheAccept.vo CacheAccept.glob CacheAccept.v.beautified CacheAccept.required_vo: CacheAccept.v Base.vo Fields.vo SrcFacts.vo Msg.vo SrcDecisions.vo Cache.vo CacheSpec.vo CacheProofs.vo
 CacheAccept.vio: CacheAccept.v Base.vio Fields.vio SrcFacts.vio Msg.vio SrcDecisions.vio Cache.vio CacheSpec.vio CacheProofs.vio
 CacheAccept.vos CacheAccept.vok CacheAccept.required_vos: CacheAccept.v Base.vos Fields.vos SrcFacts.vos Msg.vos SrcDecisions.vos Cache.vos CacheSpec.vos CacheProofs.vos
+CacheLate.vo CacheLate.glob CacheLate.v.beautified CacheLate.required_vo: CacheLate.v Base.vo Fields.vo SrcFacts.vo Msg.vo SrcDecisions.vo Cache.vo CacheSpec.vo CacheProofs.vo
+CacheLate.vio: CacheLate.v Base.vio Fields.vio SrcFacts.vio Msg.vio SrcDecisions.vio Cache.vio CacheSpec.vio CacheProofs.vio
+CacheLate.vos CacheLate.vok CacheLate.required_vos: CacheLate.v Base.vos Fields.vos SrcFacts.vos Msg.vos SrcDecisions.vos Cache.vos CacheSpec.vos CacheProofs.vos
 ResolverInv.vo ResolverInv.glob ResolverInv.v.beautified ResolverInv.required_vo: ResolverInv.v Base.vo Fields.vo SrcFacts.vo Msg.vo SrcDecisions.vo Cache.vo CacheSpec.vo CacheProofs.vo Sim.vo SimProofs.vo Prober.vo Resolver.vo ResolverProofs.vo
 ResolverInv.vio: ResolverInv.v Base.vio Fields.vio SrcFacts.vio Msg.vio SrcDecisions.vio Cache.vio CacheSpec.vio CacheProofs.vio Sim.vio SimProofs.vio Prober.vio Resolver.vio ResolverProofs.vio
 ResolverInv.vos ResolverInv.vok ResolverInv.required_vos: ResolverInv.v Base.vos Fields.vos SrcFacts.vos Msg.vos SrcDecisions.vos Cache.vos CacheSpec.vos CacheProofs.vos Sim.vos SimProofs.vos Prober.vos Resolver.vos ResolverProofs.vos
@@ -133,21 +136,24 @@ BrowserSrv.vos BrowserSrv.vok BrowserSrv.required_vos: BrowserSrv.v Base.vos Fie
 ProviderListener.vo ProviderListener.glob ProviderListener.v.beautified ProviderListener.required_vo: ProviderListener.v Base.vo Fields.vo SrcFacts.vo Msg.vo SrcDecisions.vo Cache.vo CacheSpec.vo CacheProofs.vo Sim.vo Prober.vo Hostname.vo HostnameInv.vo Provider.vo ProviderProofs.vo
 ProviderListener.vio: ProviderListener.v Base.vio Fields.vio SrcFacts.vio Msg.vio SrcDecisions.vio Cache.vio CacheSpec.vio CacheProofs.vio Sim.vio Prober.vio Hostname.vio HostnameInv.vio Provider.vio ProviderProofs.vio
 ProviderListener.vos ProviderListener.vok ProviderListener.required_vos: ProviderListener.v Base.vos Fields.vos SrcFacts.vos Msg.vos SrcDecisions.vos Cache.vos CacheSpec.vos CacheProofs.vos Sim.vos Prober.vos Hostname.vos HostnameInv.vos Provider.vos ProviderProofs.vos
+ProviderReply.vo ProviderReply.glob ProviderReply.v.beautified ProviderReply.required_vo: ProviderReply.v Base.vo Fields.vo SrcFacts.vo Msg.vo SrcDecisions.vo Cache.vo CacheSpec.vo Sim.vo Prober.vo Hostname.vo Provider.vo ProviderSpec.vo ProviderProofs.vo ProviderListener.vo
+ProviderReply.vio: ProviderReply.v Base.vio Fields.vio SrcFacts.vio Msg.vio SrcDecisions.vio Cache.vio CacheSpec.vio Sim.vio Prober.vio Hostname.vio Provider.vio ProviderSpec.vio ProviderProofs.vio ProviderListener.vio
+ProviderReply.vos ProviderReply.vok ProviderReply.required_vos: ProviderReply.v Base.vos Fields.vos SrcFacts.vos Msg.vos SrcDecisions.vos Cache.vos CacheSpec.vos Sim.vos Prober.vos Hostname.vos Provider.vos ProviderSpec.vos ProviderProofs.vos ProviderListener.vos
 ProviderConverge.vo ProviderConverge.glob ProviderConverge.v.beautified ProviderConverge.required_vo: ProviderConverge.v Base.vo Fields.vo SrcFacts.vo Msg.vo SrcDecisions.vo Cache.vo CacheSpec.vo CacheProofs.vo Sim.vo Prober.vo Hostname.vo HostnameInv.vo Provider.vo ProviderProofs.vo ProviderListener.vo
 ProviderConverge.vio: ProviderConverge.v Base.vio Fields.vio SrcFacts.vio Msg.vio SrcDecisions.vio Cache.vio CacheSpec.vio CacheProofs.vio Sim.vio Prober.vio Hostname.vio HostnameInv.vio Provider.vio ProviderProofs.vio ProviderListener.vio
 ProviderConverge.vos ProviderConverge.vok ProviderConverge.required_vos: ProviderConverge.v Base.vos Fields.vos SrcFacts.vos Msg.vos SrcDecisions.vos Cache.vos CacheSpec.vos CacheProofs.vos Sim.vos Prober.vos Hostname.vos HostnameInv.vos Provider.vos ProviderProofs.vos ProviderListener.vos
 ProviderTarget.vo ProviderTarget.glob ProviderTarget.v.beautified ProviderTarget.required_vo: ProviderTarget.v Base.vo Fields.vo SrcFacts.vo Msg.vo SrcDecisions.vo Cache.vo CacheSpec.vo CacheProofs.vo Sim.vo SimProofs.vo Prober.vo Hostname.vo HostnameInv.vo Provider.vo ProviderProofs.vo ProviderListener.vo ProviderConverge.vo
 ProviderTarget.vio: ProviderTarget.v Base.vio Fields.vio SrcFacts.vio Msg.vio SrcDecisions.vio Cache.vio CacheSpec.vio CacheProofs.vio Sim.vio SimProofs.vio Prober.vio Hostname.vio HostnameInv.vio Provider.vio ProviderProofs.vio ProviderListener.vio ProviderConverge.vio
 ProviderTarget.vos ProviderTarget.vok ProviderTarget.required_vos: ProviderTarget.v Base.vos Fields.vos SrcFacts.vos Msg.vos SrcDecisions.vos Cache.vos CacheSpec.vos CacheProofs.vos Sim.vos SimProofs.vos Prober.vos Hostname.vos HostnameInv.vos Provider.vos ProviderProofs.vos ProviderListener.vos ProviderConverge.vos
-Properties_C05.vo Properties_C05.glob Properties_C05.v.beautified Properties_C05.required_vo: Properties_C05.v Base.vo Fields.vo SrcFacts.vo Msg.vo SrcDecisions.vo Cache.vo CacheSpec.vo CacheProofs.vo CacheAccept.vo
-Properties_C05.vio: Properties_C05.v Base.vio Fields.vio SrcFacts.vio Msg.vio SrcDecisions.vio Cache.vio CacheSpec.vio CacheProofs.vio CacheAccept.vio
-Properties_C05.vos Properties_C05.vok Properties_C05.required_vos: Properties_C05.v Base.vos Fields.vos SrcFacts.vos Msg.vos SrcDecisions.vos Cache.vos CacheSpec.vos CacheProofs.vos CacheAccept.vos
+Properties_C05.vo Properties_C05.glob Properties_C05.v.beautified Properties_C05.required_vo: Properties_C05.v Base.vo Fields.vo SrcFacts.vo Msg.vo SrcDecisions.vo Cache.vo CacheSpec.vo CacheProofs.vo CacheAccept.vo CacheLate.vo
+Properties_C05.vio: Properties_C05.v Base.vio Fields.vio SrcFacts.vio Msg.vio SrcDecisions.vio Cache.vio CacheSpec.vio CacheProofs.vio CacheAccept.vio CacheLate.vio
+Properties_C05.vos Properties_C05.vok Properties_C05.required_vos: Properties_C05.v Base.vos Fields.vos SrcFacts.vos Msg.vos SrcDecisions.vos Cache.vos CacheSpec.vos CacheProofs.vos CacheAccept.vos CacheLate.vos
 Properties_C06.vo Properties_C06.glob Properties_C06.v.beautified Properties_C06.required_vo: Properties_C06.v Base.vo Fields.vo SrcFacts.vo Msg.vo SrcDecisions.vo Cache.vo CacheSpec.vo CacheProofs.vo CacheAccept.vo
 Properties_C06.vio: Properties_C06.v Base.vio Fields.vio SrcFacts.vio Msg.vio SrcDecisions.vio Cache.vio CacheSpec.vio CacheProofs.vio CacheAccept.vio
 Properties_C06.vos Properties_C06.vok Properties_C06.required_vos: Properties_C06.v Base.vos Fields.vos SrcFacts.vos Msg.vos SrcDecisions.vos Cache.vos CacheSpec.vos CacheProofs.vos CacheAccept.vos
-Properties_C18.vo Properties_C18.glob Properties_C18.v.beautified Properties_C18.required_vo: Properties_C18.v Base.vo Fields.vo SrcFacts.vo Msg.vo SrcDecisions.vo Cache.vo CacheSpec.vo CacheProofs.vo CacheAccept.vo
-Properties_C18.vio: Properties_C18.v Base.vio Fields.vio SrcFacts.vio Msg.vio SrcDecisions.vio Cache.vio CacheSpec.vio CacheProofs.vio CacheAccept.vio
-Properties_C18.vos Properties_C18.vok Properties_C18.required_vos: Properties_C18.v Base.vos Fields.vos SrcFacts.vos Msg.vos SrcDecisions.vos Cache.vos CacheSpec.vos CacheProofs.vos CacheAccept.vos
+Properties_C18.vo Properties_C18.glob Properties_C18.v.beautified Properties_C18.required_vo: Properties_C18.v Base.vo Fields.vo SrcFacts.vo Msg.vo SrcDecisions.vo Cache.vo CacheSpec.vo CacheProofs.vo CacheAccept.vo CacheLate.vo
+Properties_C18.vio: Properties_C18.v Base.vio Fields.vio SrcFacts.vio Msg.vio SrcDecisions.vio Cache.vio CacheSpec.vio CacheProofs.vio CacheAccept.vio CacheLate.vio
+Properties_C18.vos Properties_C18.vok Properties_C18.required_vos: Properties_C18.v Base.vos Fields.vos SrcFacts.vos Msg.vos SrcDecisions.vos Cache.vos CacheSpec.vos CacheProofs.vos CacheAccept.vos CacheLate.vos
 Properties_C03.vo Properties_C03.glob Properties_C03.v.beautified Properties_C03.required_vo: Properties_C03.v Base.vo Fields.vo SrcFacts.vo Msg.vo Decoder.vo DecoderSafety.vo
 Properties_C03.vio: Properties_C03.v Base.vio Fields.vio SrcFacts.vio Msg.vio Decoder.vio DecoderSafety.vio
 Properties_C03.vos Properties_C03.vok Properties_C03.required_vos: Properties_C03.v Base.vos Fields.vos SrcFacts.vos Msg.vos Decoder.vos DecoderSafety.vos
@@ -172,9 +178,9 @@ Properties_C15.vos Properties_C15.vok Properties_C15.required_vos: Properties_C1
 Properties_C14.vo Properties_C14.glob Properties_C14.v.beautified Properties_C14.required_vo: Properties_C14.v Base.vo Fields.vo SrcFacts.vo Msg.vo SrcDecisions.vo Cache.vo Sim.vo SimProofs.vo Browser.vo BrowserSpec.vo BrowserProofs.vo BrowserInv.vo
 Properties_C14.vio: Properties_C14.v Base.vio Fields.vio SrcFacts.vio Msg.vio SrcDecisions.vio Cache.vio Sim.vio SimProofs.vio Browser.vio BrowserSpec.vio BrowserProofs.vio BrowserInv.vio
 Properties_C14.vos Properties_C14.vok Properties_C14.required_vos: Properties_C14.v Base.vos Fields.vos SrcFacts.vos Msg.vos SrcDecisions.vos Cache.vos Sim.vos SimProofs.vos Browser.vos BrowserSpec.vos BrowserProofs.vos BrowserInv.vos
-Properties_C13.vo Properties_C13.glob Properties_C13.v.beautified Properties_C13.required_vo: Properties_C13.v Base.vo Fields.vo SrcFacts.vo Msg.vo SrcDecisions.vo Cache.vo CacheSpec.vo Sim.vo Prober.vo Hostname.vo Provider.vo ProviderSpec.vo ProviderProofs.vo ProviderListener.vo
-Properties_C13.vio: Properties_C13.v Base.vio Fields.vio SrcFacts.vio Msg.vio SrcDecisions.vio Cache.vio CacheSpec.vio Sim.vio Prober.vio Hostname.vio Provider.vio ProviderSpec.vio ProviderProofs.vio ProviderListener.vio
-Properties_C13.vos Properties_C13.vok Properties_C13.required_vos: Properties_C13.v Base.vos Fields.vos SrcFacts.vos Msg.vos SrcDecisions.vos Cache.vos CacheSpec.vos Sim.vos Prober.vos Hostname.vos Provider.vos ProviderSpec.vos ProviderProofs.vos ProviderListener.vos
+Properties_C13.vo Properties_C13.glob Properties_C13.v.beautified Properties_C13.required_vo: Properties_C13.v Base.vo Fields.vo SrcFacts.vo Msg.vo SrcDecisions.vo Cache.vo CacheSpec.vo Sim.vo Prober.vo Hostname.vo Provider.vo ProviderSpec.vo ProviderProofs.vo ProviderListener.vo ProviderReply.vo
+Properties_C13.vio: Properties_C13.v Base.vio Fields.vio SrcFacts.vio Msg.vio SrcDecisions.vio Cache.vio CacheSpec.vio Sim.vio Prober.vio Hostname.vio Provider.vio ProviderSpec.vio ProviderProofs.vio ProviderListener.vio ProviderReply.vio
+Properties_C13.vos Properties_C13.vok Properties_C13.required_vos: Properties_C13.v Base.vos Fields.vos SrcFacts.vos Msg.vos SrcDecisions.vos Cache.vos CacheSpec.vos Sim.vos Prober.vos Hostname.vos Provider.vos ProviderSpec.vos ProviderProofs.vos ProviderListener.vos ProviderReply.vos
 Properties_C12.vo Properties_C12.glob Properties_C12.v.beautified Properties_C12.required_vo: Properties_C12.v Base.vo Fields.vo SrcFacts.vo Msg.vo SrcDecisions.vo Cache.vo CacheSpec.vo Sim.vo Prober.vo Hostname.vo Provider.vo ProviderSpec.vo ProviderProofs.vo ProviderListener.vo ProviderConverge.vo ProviderTarget.vo SimProofs.vo
 Properties_C12.vio: Properties_C12.v Base.vio Fields.vio SrcFacts.vio Msg.vio SrcDecisions.vio Cache.vio CacheSpec.vio Sim.vio Prober.vio Hostname.vio Provider.vio ProviderSpec.vio ProviderProofs.vio ProviderListener.vio ProviderConverge.vio ProviderTarget.vio SimProofs.vio
 Properties_C12.vos Properties_C12.vok Properties_C12.required_vos: Properties_C12.v Base.vos Fields.vos SrcFacts.vos Msg.vos SrcDecisions.vos Cache.vos CacheSpec.vos Sim.vos Prober.vos Hostname.vos Provider.vos ProviderSpec.vos ProviderProofs.vos ProviderListener.vos ProviderConverge.vos ProviderTarget.vos SimProofs.vos
